@@ -520,6 +520,9 @@ impl Session {
         self.mtu = mtu;
         self.window_size = window_size;
         self.handshake_pending = !self.initiator;
+        // A (repeated) handshake starts the session from scratch
+        self.recv_window.reset();
+        self.send_window.reset();
         self.recv_window.level = window_size;
         self.send_window.window_size = window_size;
         self.send_window.level = window_size;
@@ -664,7 +667,7 @@ impl Session {
             let mtu = if self.relaxed_mtu_nego {
                 // In the relaxed MTU negotiation mode, if the GATT MTU is not what the peer reports,
                 // we take as an MTU the minimum between our MTU and what the peer reports
-                min(min(req.mtu, gatt_mtu.unwrap_or(MIN_MTU)), MAX_MTU)
+                min(req.mtu, gatt_mtu.unwrap_or(MIN_MTU)).clamp(MIN_MTU, MAX_MTU)
             } else {
                 // We don't know our MTU or what we know is not what the other peer reports
                 // => use the minimum MTU
@@ -680,8 +683,8 @@ impl Session {
 
             mtu
         } else {
-            // Used MTU should not be bigger than the maximum allowed
-            min(req.mtu, MAX_MTU)
+            // Used MTU should not be smaller than the minimum or bigger than the maximum allowed
+            req.mtu.clamp(MIN_MTU, MAX_MTU)
         };
 
         // Remove the header as we need to report back the payload MTU
@@ -691,6 +694,12 @@ impl Session {
         // Make sure we are using a window size that would allow us to receive at least one full BTP SDU
         // TODO: Revisit the mtu and window_size computations
         let window_size = min(req.window_size, Self::initial_window_size(mtu));
+
+        if window_size == 0 {
+            // Not even our Handshake Response would fit in such a window
+            warn!("RX handshake integrity failure: window size 0");
+            return Err(ErrorCode::InvalidData.into());
+        }
 
         debug!("\n>>RCV (BTP IO) {} [{}]\n      HANDSHAKE REQ {:?}\nSelected version: {}, MTU: {}, window size: {}", address, hdr, req, version, mtu, window_size);
 
@@ -712,6 +721,17 @@ impl Session {
         let resp = HandshakeResp::from(payload.iter().copied())?;
 
         debug!("\n>>RCV (BTP IO) {} [{}]\n      HANDSHAKE RESP {:?}\nSelected version: {}, MTU: {}, window size: {}", address, hdr, resp, resp.version, resp.mtu, resp.window_size);
+
+        if resp.mtu < MIN_MTU - GATT_HEADER_SIZE as u16
+            || resp.mtu > MAX_MTU - GATT_HEADER_SIZE as u16
+            || resp.window_size == 0
+        {
+            warn!(
+                "RX handshake integrity failure: MTU {} / window size {} out of range",
+                resp.mtu, resp.window_size
+            );
+            return Err(ErrorCode::InvalidData.into());
+        }
 
         self.setup(address, resp.version, resp.mtu, resp.window_size);
 
